@@ -31,6 +31,9 @@ TEMPLATES = [
     ('SELECT a FROM #t WHERE {0}', [(True, BOOL)]),
     ('SELECT coalesce(a, {0}) + {0} FROM #t', [(4, INT)]),
     ('SELECT a FROM (SELECT a, c FROM #t WHERE a > {0}) WHERE c < {1}', [(1, INT), (Decimal('2'), DEC)]),
+    ('SELECT a + {0} FROM (SELECT a FROM #t WHERE a > {1})', [(10, INT), (1, INT)]),
+    ('SELECT {0}, a FROM (SELECT a FROM #t WHERE a > {1}) WHERE a < {2} ORDER BY a * {3}', [('k', STR), (0, INT), (5, INT), (-1, INT)]),
+    ('SELECT a - {0} FROM #t WHERE a IN (SELECT a - {1} FROM #t) ORDER BY -a + {2}', [(1, INT), (0, INT), (9, INT)]),
 ]
 
 
@@ -174,6 +177,50 @@ def check_executemany(si):
     return None
 
 
+LEDGER_STMTS = ['SELECT count(*)', 'SELECT account, sum(position) GROUP BY account ORDER BY account', 'SELECT count(*) FROM OPEN ON 2020-01-15 CLOSE ON 2020-02-10',
+                'SELECT account, sum(position) FROM OPEN ON 2020-02-01 CLEAR GROUP BY account ORDER BY account', 'SELECT count(*) FROM CLOSE ON 2020-01-20', 'BALANCES FROM OPEN ON 2020-01-15',
+                'SELECT count(*) FROM #entries', 'SELECT date, balance WHERE account ~ "Checking"', 'SELECT count(*) FROM year = 2020 CLOSE', 'JOURNAL "Food" FROM CLOSE ON 2020-02-01',
+                'SELECT %s, narration FROM year = %s ORDER BY date', 'SELECT meta(%s), entry_meta(%s) WHERE any_meta(%s) IS NOT NULL']
+LEDGER_PARAMS = {10: ('tag', 2020), 11: ('memo', 'ref', 'ref')}
+
+
+def check_ledger_history(hist):
+    """histories over a Beancount-backed connection: each execution equals the same statement on a fresh connection"""
+    from harness import ledger
+    c = ledger.connect()
+    for step, si in enumerate(hist):
+        q = LEDGER_STMTS[si]
+        params = LEDGER_PARAMS.get(si)
+        try:
+            exp = ledger.connect().execute(q, params).fetchall()
+        except Exception as e:
+            return ('a statement executes on a fresh connection', {'ledger_history': [LEDGER_STMTS[i] for i in hist], 'step': step}, f'{type(e).__name__}: {e}', 'rows')
+        try:
+            got = c.execute(q, params).fetchall()
+        except Exception as e:
+            return ('other executions in between never make an execution fail (ledger connection)', {'ledger_history': [LEDGER_STMTS[i] for i in hist], 'step': step}, f'{type(e).__name__}: {e}', exp[:3])
+        if got != exp:
+            return ('a result depends only on the statement, its parameters and the data (ledger connection)', {'ledger_history': [LEDGER_STMTS[i] for i in hist], 'step': step}, got[:3], exp[:3])
+    return None
+
+
+def ledger_params(res):
+    """positional parameters bind in textual order also when FROM and the targets both hold placeholders"""
+    from harness import ledger
+    c = ledger.connect()
+    for q, params, lit in [('SELECT %s, narration FROM year = %s ORDER BY date', ('tag', 2020), "SELECT 'tag', narration FROM year = 2020 ORDER BY date"),
+                           ('SELECT meta(%s), entry_meta(%s) WHERE any_meta(%s) IS NOT NULL', ('memo', 'ref', 'ref'), "SELECT meta('memo'), entry_meta('ref') WHERE any_meta('ref') IS NOT NULL"),
+                           ('SELECT account, %s WHERE number > %s AND account ~ %s', ('x', 100, 'Assets'), "SELECT account, 'x' WHERE number > 100 AND account ~ 'Assets'")]:
+        res.case(('ledger-params', q))
+        try:
+            got = c.execute(q, params).fetchall()
+        except Exception as e:
+            got = f'{type(e).__name__}: {e}'
+        exp = c.execute(lit).fetchall()
+        if got != exp:
+            res.violation('h09:ledger-params:' + q[:60], 'placeholders equal the statement with literals (positional in textual order)', {'query': q, 'params': repr(params)}, got if isinstance(got, str) else got[:3], exp[:3])
+
+
 def arity(res):
     c = conn()
     for q, p, ok in [('SELECT %s FROM #t', (1, 2), False), ('SELECT %s, %s FROM #t', (1,), False), ('SELECT %(a)s FROM #t', {'b': 1}, False),
@@ -216,6 +263,15 @@ def run(tier, seed):
             st = bad[1]['history'][bad[1].get('step', 0)] if 'step' in bad[1] else None
             fp = 'h09:history:' + bad[0][:40] + ':' + (f'stmt{st[0]}-{st[2]}' if st else '')
             res.violation(fp, bad[0], {'history': [list(s) for s in bad[1]['history']], 'step': bad[1].get('step')}, bad[2], bad[3])
+    n = len(LEDGER_STMTS)
+    lh = [[a] for a in range(n)] + [[a, b] for a in range(n) for b in range(n)]
+    for _ in range(60 if tier == 'quick' else 600):
+        lh.append([rng.randrange(n) for _ in range(rng.randint(3, 5))])
+    for h, bad in zip(lh, pmap(check_ledger_history, lh, chunk=4)):
+        res.case(('ledger-hist', tuple(h)), {'ledger_history': h})
+        if bad:
+            res.violation('h09:ledger-history:' + bad[0][:30] + ':' + str(bad[1]['ledger_history'][bad[1]['step']])[:60], bad[0], bad[1], bad[2], bad[3])
+    ledger_params(res)
     for si in range(len(STMTS)):
         res.case(('executemany', si))
         bad = check_executemany(si)
@@ -226,6 +282,9 @@ def run(tier, seed):
 
 
 def replay(case):
+    if 'ledger_history' in case:
+        bad = check_ledger_history([LEDGER_STMTS.index(q) for q in case['ledger_history']])
+        return {'status': 'reproduced' if bad else 'not-reproduced', 'detail': repr(bad)[:500]}
     if 'history' in case:
         bad = check_history([tuple(s) for s in case['history']])
         return {'status': 'reproduced' if bad else 'not-reproduced', 'detail': repr(bad)[:500]}
